@@ -1,9 +1,32 @@
 (* Theorems about the sequential model of Store.v: per-cell semantics of a commit (C01),
    rewritten operations are absolute (C05/C06), bitmap indexes equal their predicate (C03),
    liveness invariants of cells (C11), rollback (C02). *)
-From stdpp Require Import gmap sorting.
+From stdpp Require Import gmap mapset sorting.
 From ColumnV Require Import GenConsts Bytes Store.
 Local Open Scope N_scope.
+
+Lemma elem_of_sadd j i (X : gset N) : j ∈ sadd i X ↔ j = i ∨ j ∈ X.
+Proof.
+  destruct X as [m]. unfold sadd.
+  change (j ∈ Mapset (<[i:=()]> m)) with (<[i:=()]> m !! j = Some ()).
+  change (j ∈ Mapset m) with (m !! j = Some ()).
+  destruct (decide (j = i)) as [->|NE].
+  - rewrite lookup_insert. tauto.
+  - rewrite lookup_insert_ne by done. tauto.
+Qed.
+Lemma elem_of_sdel j i (X : gset N) : j ∈ sdel i X ↔ j ≠ i ∧ j ∈ X.
+Proof.
+  destruct X as [m]. unfold sdel.
+  change (j ∈ Mapset (delete i m)) with (delete i m !! j = Some ()).
+  change (j ∈ Mapset m) with (m !! j = Some ()).
+  destruct (decide (j = i)) as [->|NE].
+  - rewrite lookup_delete. split; [done|tauto].
+  - rewrite lookup_delete_ne by done. tauto.
+Qed.
+Lemma sadd_union i (X : gset N) : sadd i X = {[i]} ∪ X.
+Proof. apply set_eq. intro j. rewrite elem_of_sadd. set_solver. Qed.
+Lemma sdel_diff i (X : gset N) : sdel i X = X ∖ {[i]}.
+Proof. apply set_eq. intro j. rewrite elem_of_sdel. set_solver. Qed.
 
 (* ------------------------------------------------------------------------------------- *)
 (* generic list facts                                                                      *)
@@ -347,14 +370,14 @@ Proof.
   revert f; induction l as [|o r IH]; intro f; [done|].
   cbn [foldl]. rewrite IH. destruct (decide (ooff o = i)) as [E|NE].
   - rewrite filter_cons_True by done. cbn [foldl]. f_equal.
-    unfold mark_step, live_step. destruct (ok o).
+    unfold mark_step, live_step. rewrite ?sadd_union, ?sdel_diff. destruct (ok o).
     + apply bool_decide_eq_false. set_solver.
     + apply bool_decide_eq_true. set_solver.
     + done.
     + done.
     + done.
   - rewrite filter_cons_False by done. f_equal.
-    unfold mark_step. destruct (ok o); try done; apply bool_decide_ext; set_solver.
+    unfold mark_step. rewrite ?sadd_union, ?sdel_diff. destruct (ok o); try done; apply bool_decide_ext; set_solver.
 Qed.
 
 Lemma commit_block_fill s t b i :
@@ -475,7 +498,7 @@ Proof.
   unfold comp_apply; cbn [foldl].
   assert (∃ b1, comp_step (XIndex rule bits) o = XIndex rule b1 ∧
             ∀ i, bool_decide (i ∈ b1) = if decide (ooff o = i) then bit_step rule i (bool_decide (i ∈ bits)) o else bool_decide (i ∈ bits)) as (b1 & E1 & M1).
-  { unfold comp_step, bit_step. destruct (ok o) eqn:K.
+  { unfold comp_step, bit_step. rewrite ?sadd_union, ?sdel_diff. destruct (ok o) eqn:K.
     - eexists; split; [done|]. intro i. destruct (decide (ooff o = i)); [apply bool_decide_eq_false|apply bool_decide_ext]; set_solver.
     - exists bits; split; [done|]. intro i. by destruct (decide _).
     - destruct (rule (ooff o) (oval o)) eqn:Ru; (eexists; split; [done|]); intro i; destruct (decide (ooff o = i)) as [E|NE].
